@@ -44,10 +44,10 @@ type c01State struct {
 	resStarted  int
 	resFinished int
 	// pause bookkeeping: value of resFinished when the most recent pause completed, -1 if none since the last resume
-	selfPauseAt   int
-	extPauseAt    int
-	userSinceExt  int
-	pausesDone    int
+	selfPauseAt  int
+	extPauseAt   int
+	userSinceExt int
+	pausesDone   int
 }
 
 func (s *c01State) newEnv(system bool, action int) *c01Env {
